@@ -420,6 +420,46 @@ pub fn h_c11_read_wide(inp: &Inp) -> u8 {
     }
 }
 
+//@ harness props=C11 covers=3 name=GCounter apply / merge with actor totals in {absent, 2^63, 2^64-1}: apply keeps the larger total, merge is the per-actor maximum, the read follows exactly
+#[no_mangle]
+pub fn h_c11_apply_wide(inp: &Inp) -> u8 {
+    const W: [u64; 3] = [0, 1 << 63, u64::MAX];
+    let mut i = In::new(inp);
+    let mut p = [0u64; NAU];
+    let mut q = [0u64; NAU];
+    let mut a = 0;
+    while a < NAU {
+        p[a] = W[i.below(3) as usize];
+        q[a] = W[i.below(3) as usize];
+        a += 1;
+    }
+    let a = i.below(NA) as usize;
+    let c = W[i.below(3) as usize];
+    if !i.ok {
+        return 2;
+    }
+    let mut g = wspec(&p);
+    g.apply(dot(a as u8, c));
+    let mut p2 = p;
+    if c > p2[a] {
+        p2[a] = c;
+    }
+    if !vc_is(gacc::inner(&g), |x| p2[x as usize]) || g.read() != BigUint::from(wsum(&p2)) {
+        return 0;
+    }
+    let mut m = wspec(&p);
+    m.merge(wspec(&q));
+    let pq = wmax(&p, &q);
+    if !vc_is(gacc::inner(&m), |x| pq[x as usize]) || m.read() != BigUint::from(wsum(&pq)) {
+        return 0;
+    }
+    if wsum(&pq) > u64::MAX as u128 {
+        3
+    } else {
+        1
+    }
+}
+
 /// number of ops in the register / set universes
 const NW: usize = 3;
 
